@@ -272,14 +272,13 @@ def louvain_cases(ctx, cls_name, b, params, force_bipartite):
     # the bookkeeping of fit around the kernels
     raws = [lv[1] for lv in rec.levels]
     flags = [1 if lv[2] <= est.tol_aggregation else 0 for lv in rec.levels]
-    tail = '%s %s %s %s %d' % (enc_list(rec.index), enc_bool(est.sort_clusters), enc_bool(est.shuffle_nodes),
-                               enc_bool(bip), b.shape[0])
+    tail = '%s %s %s' % (enc_list(rec.index), enc_bool(est.sort_clusters), enc_bool(est.shuffle_nodes))
+    head = '%d %d %d %s 1 %d' % (b.shape[0], b.shape[1], b.nnz, enc_bool(force_bipartite), est.n_aggregations)
     impl = 'ok %d %s' % (len(rec.levels), fitted_str(est))
     if cls_name == 'Louvain':
-        run = 'c05.louvain %d %d %s %s %s' % (rec.n, est.n_aggregations, enc_listlist(raws), enc_list(flags), tail)
+        run = 'c05.louvain %s %s %s %s' % (head, enc_listlist(raws), enc_list(flags), tail)
     else:
-        run = 'c05.leiden %d %d %s %s %s %s' % (rec.n, est.n_aggregations, enc_listlist(raws),
-                                                enc_listlist(rec.refined), enc_list(flags), tail)
+        run = 'c05.leiden %s %s %s %s %s' % (head, enc_listlist(raws), enc_listlist(rec.refined), enc_list(flags), tail)
     eff = raws if cls_name == 'Louvain' else (list(rec.refined[:-1]) + [raws[-1]])
     spec = 'c05.spec_post %s %s %s %s' % (enc_listlist(eff), enc_list(rec.index), enc_bool(est.shuffle_nodes),
                                           enc_list(lab))
@@ -341,7 +340,7 @@ def propagation_cases(ctx, b, params):
     nontriv = len(lab) > 0 and max(lab) >= 1
     out = [Case(key0 + ('valid',), dict(sig0, output='labels_'), None, None,
                 'c05.spec_valid %d %s %s' % (n_all, enc_list(lab), enc_bool(est.sort_clusters)), nontriv, desc)]
-    run = 'c05.prop %s %s %s %d' % (enc_list(rec.raw_attr), enc_bool(est.sort_clusters), enc_bool(bip), b.shape[0])
+    run = 'c05.prop %d %d %d %s %s' % (b.shape[0], b.shape[1], b.nnz, enc_list(rec.raw_attr), enc_bool(est.sort_clusters))
     out.append(Case(key0 + ('pipeline',), dict(sig0, output='pipeline'), run, 'ok ' + fitted_str(est), None, nontriv,
                     desc, canon='fitted_sorted0' if est.sort_clusters else None))
     out += secondary_cases(ctx, 'PropagationClustering', est, b, bip, sig0, desc, key0)
@@ -618,6 +617,33 @@ def estimator_cases(ctx, name, b, reps=1, kcenters=True):
     return out
 
 
+def refusal_cases(ctx):
+    """Inputs the estimators refuse: no stored entry (check_format), unknown modularity (_pre_processing)."""
+    from sknetwork.clustering import Louvain, Leiden, PropagationClustering, KCenters
+    out = []
+    for shape in ((3, 3), (2, 3)):
+        e = sparse.csr_matrix(shape, dtype=float)
+        d = {'kind': 'refusal', 'shape': list(shape)}
+        for name, cls in (('Louvain', Louvain), ('Leiden', Leiden)):
+            impl = _call(lambda: (cls().fit(e), 'ok')[1])
+            cmd = 'c05.louvain' if name == 'Louvain' else 'c05.leiden'
+            mid = '- -' if name == 'Louvain' else '- - -'
+            out.append(Case(('refuse', name, shape), {'entry': name, 'output': 'refusal'},
+                            '%s %d %d 0 0 1 -1 %s - 1 0' % (cmd, shape[0], shape[1], mid), impl, None, False, d))
+        impl = _call(lambda: (PropagationClustering().fit(e), 'ok')[1])
+        out.append(Case(('refuse', 'prop', shape), {'entry': 'PropagationClustering', 'output': 'refusal'},
+                        'c05.prop %d %d 0 - 1' % shape, impl, None, False, d))
+    a = mk(3, [(0, 1), (1, 0)], [1.0, 1.0])
+    for name, cls in (('Louvain', Louvain), ('Leiden', Leiden)):
+        impl = _call(lambda: (cls(modularity='foo').fit(a), 'ok')[1])
+        cmd = 'c05.louvain' if name == 'Louvain' else 'c05.leiden'
+        mid = '- -' if name == 'Louvain' else '- - -'
+        out.append(Case(('refuse-mod', name), {'entry': name, 'output': 'refusal'},
+                        '%s 3 3 2 0 0 -1 %s 0,1,2 1 0' % (cmd, mid), impl, None, False,
+                        {'kind': 'refusal', 'modularity': 'foo'}))
+    return out
+
+
 def corpus_cases(ctx):
     import json
     import os
@@ -636,6 +662,8 @@ def corpus_cases(ctx):
 def cases_of_desc(ctx, d):
     if d.get('kind') == 'labels':
         return label_vector_cases(ctx, d['labels'])
+    if d.get('kind') == 'refusal':
+        return refusal_cases(ctx)
     b = gfrom(d['graph'])
     if d['est'] in ('Louvain', 'Leiden'):
         return louvain_cases(ctx, d['est'], b, d['params'], d.get('force_bipartite', False))
@@ -649,7 +677,7 @@ def cases_of_desc(ctx, d):
 
 def build_cases(ctx):
     rng = ctx.rng
-    cases = corpus_cases(ctx)
+    cases = corpus_cases(ctx) + refusal_cases(ctx)
     for v in label_vectors(ctx):
         cases += label_vector_cases(ctx, v)
     gs = graph_stream(ctx)
